@@ -60,8 +60,8 @@ type C06Case struct {
 	Stress  bool        `json:"stress,omitempty"`
 	// Flush: write-batch flush threshold (0 = default): small values split one commit / deletion over several physical
 	// writes, so readers run between them
-	Flush int `json:"flush,omitempty"`
-	Pauses  []int       `json:"pauses,omitempty"`
+	Flush  int   `json:"flush,omitempty"`
+	Pauses []int `json:"pauses,omitempty"`
 }
 
 func gid() int64 {
@@ -190,6 +190,13 @@ type verModel struct {
 	kv   map[string][]byte
 }
 
+var c06Deadline = func() time.Duration {
+	if d, err := time.ParseDuration(os.Getenv("VERIF_C06_DEADLINE")); err == nil && d > 0 {
+		return d // (only used to exercise the watchdog itself)
+	}
+	return 4 * time.Minute
+}()
+
 func runC06(c C06Case) (v *Violation, st c06Stats) {
 	var vmu sync.Mutex
 	viol := func(obs, f string, a ...any) {
@@ -212,8 +219,11 @@ func runC06(c C06Case) (v *Violation, st c06Stats) {
 		opts = append(opts, iavl.FlushThresholdOption(c.Flush))
 	}
 	tr := iavl.NewMutableTree(tdb, c.Cache, c.Skip, iavl.NewNopLogger(), opts...)
+	deadlocked := false
 	defer func() {
-		_ = tr.Close()
+		if !deadlocked { // (Close would block on the same locks)
+			_ = tr.Close()
+		}
 		iavl.VerifYieldHook = nil
 		tdb.OnCall = nil
 	}()
@@ -454,7 +464,23 @@ func runC06(c C06Case) (v *Violation, st c06Stats) {
 			}
 		}(ri+1, script)
 	}
-	wg.Wait()
+	// readers and the writer must all finish: the scheduler releases every parked thread after 250 ms, the scripts are a
+	// few dozen calls, so a run that is still going after minutes is blocked inside the library (lock-order inversion,
+	// lost wake-up of the pruning goroutine, ...): "readers can read while the writer writes" is violated
+	waitDone := make(chan struct{})
+	go func() { wg.Wait(); close(waitDone) }()
+	select {
+	case <-waitDone:
+	case <-time.After(c06Deadline):
+		deadlocked = true
+		buf := make([]byte, 1<<17)
+		n := runtime.Stack(buf, true)
+		stacks := string(buf[:n])
+		if len(stacks) > 6000 {
+			stacks = stacks[:6000] + "..."
+		}
+		return &Violation{Prop: "C06", Obs: "deadlock", Msg: fmt.Sprintf("writer and readers did not finish within %s; goroutines:\n%s", c06Deadline, stacks)}, st
+	}
 	// ---- quiescent re-verification (single-threaded, writer finished)
 	for _, sp := range suspects {
 		it, err := tr.GetImmutable(sp.ver)
